@@ -32,6 +32,7 @@ type Abort struct{ Reason string }
 // through Draw*, which either takes the next value from the PRNG (recording
 // it) or from a recorded choice list (replay / minimisation).
 type Run struct {
+	wit    uint64 // see Witness
 	Prop   string
 	Seed   uint64
 	Tier   string
@@ -175,9 +176,16 @@ func (r *Run) Viol(inv, key, format string, a ...interface{}) *Violation {
 	return &Violation{Prop: r.Prop, Inv: inv, Key: key, Msg: fmt.Sprintf(format, a...)}
 }
 
+// Witness folds bytes the system under test produced (app hashes of committed blocks) into the
+// determinism witness: two executions of the same choices must not only log the same steps, the
+// real nodes must also have reached the same states.
+func (r *Run) Witness(bz []byte) {
+	r.wit = Mix(r.wit, HashString(string(bz)))
+}
+
 // LogDigest is the determinism witness of a run.
 func (r *Run) LogDigest() uint64 {
-	h := HashString(strings.Join(r.Log, "\n"))
+	h := Mix(HashString(strings.Join(r.Log, "\n")), r.wit)
 	keys := make([]string, 0, len(r.Stats))
 	for k := range r.Stats {
 		keys = append(keys, k)
